@@ -351,8 +351,8 @@ def _run_one(binary, cases, cf, of, timeout):
     except subprocess.TimeoutExpired:
         rc, err = 124, b"timeout"
     lines = open(of).read().split("\n") if os.path.exists(of) else []
-    if lines and lines[-1] == "":
-        lines.pop()
+    if lines:
+        lines.pop()              # "" after the final newline, or an incomplete line of a killed runner
     return rc, err, lines
 
 
@@ -414,8 +414,8 @@ def run_sharded(binary, cases, tag, workdir, timeout=1800):
             rc = 124
             err = b"timeout"
         lines = open(of).read().split("\n") if os.path.exists(of) else []
-        if lines and lines[-1] == "":
-            lines.pop()
+        if lines:
+            lines.pop()          # "" after the final newline, or an incomplete line of a killed runner
         if rc != 0 or len(lines) != k:
             if rc == 124:
                 # a hang: isolating by re-running costs a timeout per probe; keep it short
@@ -428,6 +428,43 @@ def run_sharded(binary, cases, tag, workdir, timeout=1800):
     for i, lines in enumerate(outs):
         res[i::nshard] = lines
     return res
+
+
+FUZZ = os.path.join(VERIF, "fuzz")
+
+
+def fuzz_inputs(seconds, workdir, seeds):
+    """coverage-guided search (cargo-fuzz / libFuzzer on the nightly toolchain) over all decode entry points;
+    returns (crash inputs, corpus inputs, log tail).  A support for the search for failing inputs, never a proof."""
+    corpus = os.path.join(workdir, "fuzzcorpus")
+    art = os.path.join(workdir, "fuzzart")
+    shutil.rmtree(corpus, ignore_errors=True)
+    shutil.rmtree(art, ignore_errors=True)
+    os.makedirs(corpus)
+    os.makedirs(art)
+    for v in seeds:
+        with open(os.path.join(corpus, hashlib.sha1(v).hexdigest()), "wb") as f:
+            f.write(v)
+    lock = os.path.join(REPO, "Cargo.lock")
+    if os.path.exists(lock) and not os.path.exists(os.path.join(FUZZ, "Cargo.lock")):
+        shutil.copy(lock, os.path.join(FUZZ, "Cargo.lock"))
+    toml = os.path.join(FUZZ, "Cargo.toml")
+    txt = open(toml).read()
+    want = 'dns-message-parser = { path = "%s" }' % REPO
+    new = re.sub(r'dns-message-parser = \{ path = "[^"]*" \}', want, txt)
+    if new != txt:
+        open(toml, "w").write(new)
+    rc, out = sh(["cargo", "+nightly", "fuzz", "build", "--fuzz-dir", FUZZ], cwd=FUZZ, timeout=1800)
+    if rc != 0:
+        return [], [], "fuzz build failed: " + out[-400:]
+    rc, out = sh(["cargo", "+nightly", "fuzz", "run", "--fuzz-dir", FUZZ, "decode_all", corpus, "--",
+                  "-max_total_time=%d" % seconds, "-max_len=8192", "-jobs=%d" % max(1, NPROC // 2),
+                  "-workers=%d" % max(1, NPROC // 2), "-artifact_prefix=" + art + "/"],
+                 cwd=workdir, timeout=seconds * 3 + 600)
+    crashes = [open(os.path.join(art, f), "rb").read() for f in sorted(os.listdir(art))
+               if f.startswith(("crash-", "oom-", "timeout-"))]
+    found = [open(os.path.join(corpus, f), "rb").read() for f in sorted(os.listdir(corpus))]
+    return crashes, found, out[-300:]
 
 
 def sha(s):
